@@ -5,11 +5,11 @@
     written at the current offset only after `work_offset + total_len <= work_buffer_size` was checked
     ([Err 2] otherwise, as in C), so the bytes written are below the declared capacity. *)
 From Coq Require Import NArith ZArith List Bool.
-From Carquet Require Import Base.Res Enc.DeltaBits Enc.DeltaModel Enc.DeltaLenModel.
+From Carquet Require Import Gen.Enums_gen Base.Res Enc.DeltaBits Enc.DeltaModel Enc.DeltaLenModel.
 Import ListNotations.
 Local Open Scope N_scope.
 
-Definition ERR_OUT_OF_MEMORY : Z := 2%Z.
+Definition ERR_OUT_OF_MEMORY : Z := E_CARQUET_ERROR_OUT_OF_MEMORY.
 
 (* common_prefix_length *)
 Fixpoint common_prefix (a b : list N) : nat :=
